@@ -179,6 +179,10 @@ def model_check(mod, cfgs, workers=8, timeout=900):
         else:
             name, w, to = cfg, workers, timeout
         r = run_tlc(mod, name, workers=w, timeout=to)
+        if not r["ok"] and (r["rc"] in (137, 143, -9, -15) or any("Shutdown in progress" in e for e in r["errors"])
+                            or (r["rc"] != 0 and not r["errors"])):
+            log("  MC %s/%s: TLC died (rc=%s); retrying once" % (mod["module"], name, r["rc"]))
+            r = run_tlc(mod, name, workers=w, timeout=to)
         r["cfg"] = name
         res.append(r)
         log("  MC %s/%s: %d states generated, %d distinct, %.1fs, %s" % (
